@@ -76,6 +76,10 @@ def eval_table(rec):
         e.raised = g.get("raised", False)
         first = (g["obj"] + g["con"])
         e.x = first[0]["x"] if first else None
+        if e.x is None and last_con:
+            # every constraint call was answered from the one-entry cache: the
+            # point is identical to the one of the most recent call
+            e.x = max(last_con.values(), key=lambda c: c["seq"])["x"]
         e.xl = unpack(e.x) if e.x is not None else None
         e.fun = g["obj"][0]["v"] if g["obj"] else (0.0 if not has_obj else None)
         e.fault = bool(g["obj"] and g["obj"][0]["f"]) or any(any(c["f"]) for c in g["con"])
